@@ -1541,6 +1541,7 @@ type perr =
 | E_unexpected_eof
 | E_newline_version
 | E_loading
+| E_include_depth
 | E_fatal_cycle
 | E_fatal_version
 | E_include_fuel
@@ -2427,6 +2428,19 @@ let rec remove_bytes x = function
 | y :: l' ->
   if bytes_eqb y x then remove_bytes x l' else y :: (remove_bytes x l')
 
+(** val count_bytes : bytes -> bytes list -> nat **)
+
+let rec count_bytes x = function
+| [] -> O
+| y :: l' -> if bytes_eqb y x then S (count_bytes x l') else count_bytes x l'
+
+(** val phony_filter : bytes -> bytes list -> nat -> bytes list * nat **)
+
+let phony_filter out ins order_only =
+  ((remove_bytes out ins),
+    (sub order_only
+      (count_bytes out (skipn (sub (length ins) order_only) ins))))
+
 (** val maybe_phonycycle : rule -> bytes list -> nat -> nat -> bool **)
 
 let maybe_phonycycle r outs implicit_outs implicit =
@@ -2523,16 +2537,19 @@ let parse_edge fuel e lx ps =
                                                     (match eval_paths lx11
                                                              st1 eenv vals with
                                                      | P_ok val_paths ->
-                                                       let in_paths' =
+                                                       let (in_paths',
+                                                            order_only') =
                                                          if maybe_phonycycle
                                                               rule0 out_paths
                                                               implicit_outs
                                                               implicit
-                                                         then remove_bytes
+                                                         then phony_filter
                                                                 (hd []
                                                                   out_paths)
                                                                 in_paths
-                                                         else in_paths
+                                                                order_only
+                                                         else (in_paths,
+                                                                order_only)
                                                        in
                                                        let edge1 = { e_rule =
                                                          rule0; e_env = eenv;
@@ -2544,7 +2561,7 @@ let parse_edge fuel e lx ps =
                                                          e_implicit_deps =
                                                          implicit;
                                                          e_order_only_deps =
-                                                         order_only;
+                                                         order_only';
                                                          e_validations =
                                                          val_paths;
                                                          e_dyndep = [] }
@@ -2584,7 +2601,7 @@ let parse_edge fuel e lx ps =
                                                                     e_implicit_deps =
                                                                     implicit;
                                                                     e_order_only_deps =
-                                                                    order_only;
+                                                                    order_only';
                                                                     e_validations =
                                                                     val_paths;
                                                                     e_dyndep =
@@ -2643,35 +2660,53 @@ let parse_edge fuel e lx ps =
 
 type loader = lexer -> bytes -> env -> pstate -> pstate pres
 
-(** val parse_include :
-    loader -> bool -> env -> lexer -> pstate -> (lexer * pstate) pres **)
+(** val max_include_depth : nat **)
 
-let parse_include incl new_scope e lx ps =
+let max_include_depth =
+  S (S (S (S (S (S (S (S (S (S (S (S (S (S (S (S (S (S (S (S (S (S (S (S (S
+    (S (S (S (S (S (S (S (S (S (S (S (S (S (S (S (S (S (S (S (S (S (S (S (S
+    (S (S (S (S (S (S (S (S (S (S (S (S (S (S (S (S (S (S (S (S (S (S (S (S
+    (S (S (S (S (S (S (S (S (S (S (S (S (S (S (S (S (S (S (S (S (S (S (S (S
+    (S (S (S (S (S (S (S (S (S (S (S (S (S (S (S (S (S (S (S (S (S (S (S (S
+    (S (S (S (S (S (S (S (S (S (S (S (S (S (S (S (S (S (S (S (S (S (S (S (S
+    (S (S (S (S (S (S (S (S (S (S (S (S (S (S (S (S (S (S (S (S (S (S (S (S
+    (S (S (S (S (S (S (S (S (S (S (S (S (S (S (S (S (S (S (S (S (S (S (S (S
+    (S (S (S (S (S (S (S
+    O)))))))))))))))))))))))))))))))))))))))))))))))))))))))))))))))))))))))))))))))))))))))))))))))))))))))))))))))))))))))))))))))))))))))))))))))))))))))))))))))))))))))))))))))))))))))))))))))))))))))
+
+(** val parse_include :
+    loader -> nat -> bool -> env -> lexer -> pstate -> (lexer * pstate) pres **)
+
+let parse_include incl depth new_scope e lx ps =
   match p_read_eval true lx with
   | P_ok a ->
     let (es, lx1) = a in
     let path = eval_in ps.ps_store e es in
-    if new_scope
-    then let sub_env = (length ps.ps_store) :: e in
-         let ps1 = ps_with_store ps (app ps.ps_store (empty_scope :: [])) in
-         (match incl lx1 path sub_env ps1 with
-          | P_ok ps2 ->
-            (match expect_token lx1 T_NEWLINE with
-             | P_ok lx2 -> P_ok (lx2, ps2)
-             | P_err (f, l, c) -> P_err (f, l, c))
-          | P_err (f, l, c) -> P_err (f, l, c))
-    else (match incl lx1 path e ps with
-          | P_ok ps2 ->
-            (match expect_token lx1 T_NEWLINE with
-             | P_ok lx2 -> P_ok (lx2, ps2)
-             | P_err (f, l, c) -> P_err (f, l, c))
-          | P_err (f, l, c) -> P_err (f, l, c))
+    if Nat.leb max_include_depth depth
+    then lex_error lx1 E_include_depth
+    else if new_scope
+         then let sub_env = (length ps.ps_store) :: e in
+              let ps1 = ps_with_store ps (app ps.ps_store (empty_scope :: []))
+              in
+              (match incl lx1 path sub_env ps1 with
+               | P_ok ps2 ->
+                 (match expect_token lx1 T_NEWLINE with
+                  | P_ok lx2 -> P_ok (lx2, ps2)
+                  | P_err (f, l, c) -> P_err (f, l, c))
+               | P_err (f, l, c) -> P_err (f, l, c))
+         else (match incl lx1 path e ps with
+               | P_ok ps2 ->
+                 (match expect_token lx1 T_NEWLINE with
+                  | P_ok lx2 -> P_ok (lx2, ps2)
+                  | P_err (f, l, c) -> P_err (f, l, c))
+               | P_err (f, l, c) -> P_err (f, l, c))
   | P_err (f, l, c) -> P_err (f, l, c)
 
 (** val parse_loop :
-    nat -> nat -> loader -> env -> lexer -> pstate -> (lexer * pstate) pres **)
+    nat -> nat -> loader -> nat -> env -> lexer -> pstate -> (lexer * pstate)
+    pres **)
 
-let rec parse_loop fuel total incl e lx ps =
+let rec parse_loop fuel total incl depth e lx ps =
   match fuel with
   | O -> P_err (lx.lx_file, O, E_loop_fuel)
   | S f ->
@@ -2684,12 +2719,12 @@ let rec parse_loop fuel total incl e lx ps =
         | T_BUILD ->
           (match parse_edge total e lx1 ps with
            | P_ok a0 ->
-             let (lx2, ps2) = a0 in parse_loop f total incl e lx2 ps2
+             let (lx2, ps2) = a0 in parse_loop f total incl depth e lx2 ps2
            | P_err (f0, l, c) -> P_err (f0, l, c))
         | T_DEFAULT ->
           (match parse_default total e lx1 ps with
            | P_ok a0 ->
-             let (lx2, ps2) = a0 in parse_loop f total incl e lx2 ps2
+             let (lx2, ps2) = a0 in parse_loop f total incl depth e lx2 ps2
            | P_err (f0, l, c) -> P_err (f0, l, c))
         | T_IDENT ->
           (match parse_let (lex_unread lx1) with
@@ -2701,33 +2736,33 @@ let rec parse_loop fuel total incl e lx ps =
              then let (major, minor) = parse_version value in
                   if version_fatal major minor
                   then P_err ([], O, E_fatal_version)
-                  else parse_loop f total incl e
+                  else parse_loop f total incl depth e
                          (lx_set_version lx2 major minor)
                          (ps_with_store ps
                            (add_binding ps.ps_store e name value))
-             else parse_loop f total incl e lx2
+             else parse_loop f total incl depth e lx2
                     (ps_with_store ps (add_binding ps.ps_store e name value))
            | P_err (f0, l, c) -> P_err (f0, l, c))
         | T_INCLUDE ->
-          (match parse_include incl false e lx1 ps with
+          (match parse_include incl depth false e lx1 ps with
            | P_ok a0 ->
-             let (lx2, ps2) = a0 in parse_loop f total incl e lx2 ps2
+             let (lx2, ps2) = a0 in parse_loop f total incl depth e lx2 ps2
            | P_err (f0, l, c) -> P_err (f0, l, c))
-        | T_NEWLINE -> parse_loop f total incl e lx1 ps
+        | T_NEWLINE -> parse_loop f total incl depth e lx1 ps
         | T_POOL ->
           (match parse_pool total e lx1 ps with
            | P_ok a0 ->
-             let (lx2, ps2) = a0 in parse_loop f total incl e lx2 ps2
+             let (lx2, ps2) = a0 in parse_loop f total incl depth e lx2 ps2
            | P_err (f0, l, c) -> P_err (f0, l, c))
         | T_RULE ->
           (match parse_rule total e lx1 ps with
            | P_ok a0 ->
-             let (lx2, ps2) = a0 in parse_loop f total incl e lx2 ps2
+             let (lx2, ps2) = a0 in parse_loop f total incl depth e lx2 ps2
            | P_err (f0, l, c) -> P_err (f0, l, c))
         | T_SUBNINJA ->
-          (match parse_include incl true e lx1 ps with
+          (match parse_include incl depth true e lx1 ps with
            | P_ok a0 ->
-             let (lx2, ps2) = a0 in parse_loop f total incl e lx2 ps2
+             let (lx2, ps2) = a0 in parse_loop f total incl depth e lx2 ps2
            | P_err (f0, l, c) -> P_err (f0, l, c))
         | T_TEOF -> P_ok (lx1, ps)
         | _ -> lex_error lx1 (E_unexpected tok))
@@ -2750,8 +2785,8 @@ let rec load ifuel fm depth parent file e ps =
        let (major, minor) = p in
        let lx = lex_start file contents major minor checked in
        let n0 = S (S (length contents)) in
-       (match parse_loop n0 n0 (fun plx -> load f fm (S depth) (Some plx)) e
-                lx ps with
+       (match parse_loop n0 n0 (fun plx -> load f fm (S depth) (Some plx))
+                depth e lx ps with
         | P_ok a ->
           let (lx', ps') = a in
           P_ok { ps_store = ps'.ps_store; ps_pools = ps'.ps_pools; ps_edges =
@@ -3394,7 +3429,7 @@ let rec spec_stmts incl fname l env0 st =
 
 let rec spec_load ifuel fm parent line file env0 st =
   match ifuel with
-  | O -> P_err (parent, line, E_include_fuel)
+  | O -> P_err (parent, line, E_include_depth)
   | S f ->
     (match fm file with
      | Some contents ->
